@@ -21,12 +21,20 @@ type combo struct {
 	// cut (first session stopped between the snapshot replay's DelCheckpoint and SetCheckpoint, then restart)
 	Restart string
 	Drop    bool // the first replica connection of the judged reconnect is cut by the source after some payload bytes
+	// TFault: the TARGET answers bookkeeping writes of the reconnect with errors for a while.
+	// reset    = the position writes that follow the source's +FULLRESYNC (ResetStartPoint) fail until the tool gives the
+	//            connection up (a new PSYNC arrives) or goes on to the run-id bookkeeping (checkpoint-hash key touched)
+	// setrunid = the run-id bookkeeping (UpdateCheckpoint) fails from its k-th write on, for n attempts
+	TFault string
 }
 
 func (c combo) Label() string {
 	l := fmt.Sprintf("src=%s|cache=%s|pid=%s|prel=%s|%s|%s", c.Src, c.Cache, c.Pid, c.Prel, c.Backend, c.Restart)
 	if c.Drop {
 		l += "|drop"
+	}
+	if c.TFault != "" {
+		l += "|tfault=" + c.TFault
 	}
 	return l
 }
@@ -48,6 +56,13 @@ func enumerate() []combo {
 			out = append(out, combo{Src: src, Cache: "natural", Pid: "id1", Prel: "at-right", Backend: be, Restart: "inloop"})
 			out = append(out, combo{Src: src, Cache: "natural", Pid: "id1", Prel: "at-right", Backend: be, Restart: "inloop", Drop: true})
 			out = append(out, combo{Src: src, Cache: "natural", Pid: "id1", Prel: "at-right", Backend: be, Restart: "restart", Drop: true})
+			if newIDSrc(src) {
+				for _, rs := range []string{"restart", "inloop"} {
+					out = append(out, combo{Src: src, Cache: "natural", Pid: "id1", Prel: "at-right", Backend: be, Restart: rs, Drop: true, TFault: "reset"})
+					out = append(out, combo{Src: src, Cache: "natural", Pid: "id1", Prel: "at-right", Backend: be, Restart: rs, Drop: true, TFault: "setrunid"})
+					out = append(out, combo{Src: src, Cache: "natural", Pid: "id1", Prel: "at-right", Backend: be, Restart: rs, TFault: "setrunid"})
+				}
+			}
 			if src == "same" || src == "trim-before" || src == "failover-late" {
 				// the snapshot is cached and replayed, the tool stops before its position is stored
 				out = append(out, combo{Src: src, Cache: "natural", Pid: "absent", Prel: "na", Backend: be, Restart: "cut"})
@@ -119,6 +134,8 @@ type plan struct {
 	Cache cacheSpec
 
 	PTxn        float64
+	TFaultK     int   // setrunid: the first failing write of the run-id bookkeeping (1-based)
+	TFaultN     int   // setrunid: number of bookkeeping attempts that fail before the target recovers
 	DropAfter   int64 // >0: the source cuts the first replica connection of the reconnect after that many payload bytes
 	Constructed []string
 	Behind      bool // failover: the new master has produced less than the stored position when the tool reconnects
@@ -312,7 +329,8 @@ func buildPlan(r *rand.Rand, c combo) (*plan, error) {
 		}
 		// ... or the promoted replica is still behind the stored position (a third of the cases)
 		until := p.S
-		if p.Aligned || (cacheCovers && r.Intn(2) == 0) || (!cacheCovers && r.Intn(3) > 0) {
+		// (with a target fault the interesting case is the new master being ahead of the stored position)
+		if p.Aligned || c.TFault != "" || (cacheCovers && r.Intn(2) == 0) || (!cacheCovers && r.Intn(3) > 0) {
 			until = p.H1.End() + int64(r.Intn(300))
 		} else {
 			p.Behind = true
@@ -468,6 +486,9 @@ func buildPlan(r *rand.Rand, c combo) (*plan, error) {
 	if c.Restart == "inloop" {
 		p.Constructed = nil
 	}
+	if c.TFault == "setrunid" {
+		p.TFaultK, p.TFaultN = 1+r.Intn(4), 1+r.Intn(2)
+	}
 	if c.Drop {
 		// somewhere inside the snapshot when one is served, else inside the first stream bytes
 		p.DropAfter = int64(1 + r.Intn(len(p.S2.RDB)-1))
@@ -476,11 +497,11 @@ func buildPlan(r *rand.Rand, c combo) (*plan, error) {
 	return p, nil
 }
 
-func (p *plan) sourceConfig(stamp func() int64) fakeredis.SourceConfig {
+func (p *plan) sourceConfig(stamp func() int64, onPsync func(fakeredis.PsyncEvent)) fakeredis.SourceConfig {
 	h := p.H2
 	cfg := fakeredis.SourceConfig{ReplID: h.ReplID, ReplID2: p.SrcID2, MasterReplOffset: p.LiveFrom,
 		BacklogOff: p.BacklogOff, Backlog: append([]byte{}, h.Bytes[p.BacklogOff-1-h.Base:p.LiveFrom-h.Base]...),
-		RDB: p.S2.RDB, HeartbeatsBeforeReply: p.HbReply, HeartbeatsBeforeRDB: p.HbRDB, Stamp: stamp}
+		RDB: p.S2.RDB, HeartbeatsBeforeReply: p.HbReply, HeartbeatsBeforeRDB: p.HbRDB, Stamp: stamp, OnPsync: onPsync}
 	if p.S >= 0 {
 		cfg.SecondReplidOffset = p.S + 1
 	} else if p.SrcID2 != "" {
